@@ -45,6 +45,7 @@ SIG_TOBS = "TimeDependentLinearPDE.observe|time_obs:all-equal-final-broadcast"
 SIG_SPL = "TimeDependentLinearPDE.observe|coinciding-nodes-and-times:spline-route-raises"
 SIG_CPLX = "TimeDependentLinearPDE.solve|complex-data:imaginary-part-discarded"
 SIG_SPL2 = "TimeDependentLinearPDE.observe|coinciding-subgrid-nodes:spline-route-raises"
+SIG_2DSQ = "TimeDependentLinearPDE.observe|final-time:two-space-axes:squeeze-axis-raises"
 
 REAL_SOLVE = scipy.linalg.solve
 REAL_RBS = scipy.interpolate.RectBivariateSpline
@@ -768,7 +769,7 @@ def o_td_observe(cfg, u, time_obs_eff):
         # a single observation time: the observation map sees the vector at that time
         try:
             E1 = E[:, 0]
-            return ("ok", np.asarray(om(E1) if om else E1, dtype=float).squeeze(), coincide)
+            return ("ok", np.asarray(om(E1) if om else E1, dtype=float), coincide)
         except Exception:
             return ("err",)
     try:
@@ -783,7 +784,11 @@ def arr_close(a, b, tol, floor=0.0):
     O(s) values may come back as rounding noise eps*s)"""
     a, b = np.asarray(a, dtype=float), np.asarray(b, dtype=float)
     if a.shape != b.shape:
-        return False
+        # the property fixes the VALUES of an observation, not whether an axis of length 1 (one observed node, one
+        # observation time) is kept; the exact shape rule of the code is part of the Coq model (`squeeze`, td_observe)
+        if a.squeeze().shape != b.squeeze().shape:
+            return False
+        a, b = a.squeeze(), b.squeeze()
     m = max(float(np.max(np.abs(b))) if b.size else 0.0, floor)
     return bool(np.all(np.abs(a - b) <= tol * m))
 
@@ -1086,6 +1091,15 @@ def witness_runs(cuqi):
     bad = not (np.shape(u) == (4, 3) and np.allclose(u[:, -1], want, rtol=1e-12, atol=0))
     out[SIG_CPLX] = (bad, "forward Euler for u' = i*Lap u (complex operator and initial condition): final level %s, the recurrence gives %s" % (
         np.asarray(u)[:, -1].tolist(), want.tolist()))
+    # final-time restriction of a solution with two space axes (n1, n2, nt): the stored last level, shape (n1, n2)
+    pde = cuqi.pde.TimeDependentLinearPDE(lambda par, t: (np.eye(3), np.zeros(3), par), np.array([0.0, 0.5, 1.0]), grid_sol=np.arange(3.0))
+    sol = np.arange(3 * 2 * 3, dtype=float).reshape(3, 2, 3)
+    try:
+        o = pde.observe(sol)
+        bad, what = not (np.shape(o) == (3, 2) and np.array_equal(o, sol[..., -1])), "shape %s" % (np.shape(o),)
+    except Exception as e:
+        bad, what = True, "%s: %s" % (type(e).__name__, e)
+    out[SIG_2DSQ] = (bad, "observe() of a (3, 2, 3) solution at the final time on equal grids -> %s (the last stored level has shape (3, 2))" % what)
     return out
 
 
@@ -1741,7 +1755,7 @@ def case_observe_poly(cuqi, rng, q, rel, tkind, om0):
         pm = pymap(om)
         try:
             if len(tl) == 1:
-                E = np.asarray(pm(E[:, 0]) if pm else E[:, 0], dtype=float).squeeze()
+                E = np.asarray(pm(E[:, 0]) if pm else E[:, 0], dtype=float)
             else:
                 E = np.asarray(pm(E) if pm else E, dtype=float)
             if not arr_close(o[1], E, 1e-10, obs_floor(cfg, U)):
@@ -2204,7 +2218,7 @@ def case_observe_3d(cuqi, rng, q, gkind, tkind):
         else:
             E = sol[..., ti]
             if len(tl) == 1:
-                E = E.squeeze()
+                E = E[..., 0]          # only the time axis is dropped (a space axis of length 1 stays)
             if a.shape != E.shape or not np.array_equal(a, E):
                 fail = "observe() on a (n1, n2, nt) solution: got shape %s, the stored slices at the requested times have shape %s" % (a.shape, E.shape)
     else:
